@@ -51,7 +51,7 @@ def sweep_endmarks(quick):
 def sweep_window(quick):
     for mode in range(7):
         for start in (0, 1):
-            for e in (start, CW - 2, CW - 1, CW, 2 * CW - 1):
+            for e in (start, 2046, 2047, 2048, 4095, 4096, CW - 2, CW - 1, CW, 2 * CW - 1):
                 need = e // CW + 1
                 for order in ("asc", "desc"):
                     if need == 1 and order == "desc":
